@@ -5,6 +5,7 @@ package lib
 
 import (
 	"bytes"
+	"encoding/hex"
 	"fmt"
 	"math/big"
 
@@ -133,6 +134,21 @@ func CheckPoint(p *Point, want ref.Pt) string {
 	return CheckObservers(p, want)
 }
 
+// CheckPointLight is CheckPoint with a single encoding as the only observer.
+func CheckPointLight(p *Point, want ref.Pt) string {
+	got, bad := PTVal(p)
+	if bad != "" {
+		return "invalid result: " + bad
+	}
+	if !got.Equal(want) {
+		return fmt.Sprintf("abstract value %v, model %v", got, want)
+	}
+	if g := p.UncompressedBytes(); !bytes.Equal(g, want.Uncompressed()) {
+		return fmt.Sprintf("UncompressedBytes=%x, model %x", g, want.Uncompressed())
+	}
+	return ""
+}
+
 // CheckObservers checks the observer methods of p against the model value.
 func CheckObservers(p *Point, want ref.Pt) string {
 	wi := uint64(0)
@@ -166,12 +182,11 @@ func CheckObservers(p *Point, want ref.Pt) string {
 
 // PtHex / HexPt serialise abstract points for replay descriptors.
 func PtHex(p ref.Pt) string {
-	return fmt.Sprintf("%x", p.Uncompressed())
+	return hex.EncodeToString(p.Uncompressed())
 }
 
 func HexPt(s string) ref.Pt {
-	var b []byte
-	fmt.Sscanf(s, "%x", &b)
+	b, _ := hex.DecodeString(s)
 	p, err := ref.DecodePoint(b)
 	if err != nil {
 		panic("lib.HexPt: bad point " + s)
